@@ -85,7 +85,7 @@ fn single(rt: &tokio::runtime::Runtime, c: &Case) -> Outcome {
     log.finish()
 }
 
-const SIG_EDGE_REVERSAL: &str = "stale memberof after one replicated change set that reverses a membership edge between two groups";
+const SIG_EDGE_REVERSAL: &str = "stale memberof after one replicated change set that changes the member lists of two or more groups";
 
 /// (group, member) pairs among live groups
 fn group_edges(entries: &[inv::E]) -> std::collections::BTreeSet<(kanidmd_lib::prelude::Uuid, kanidmd_lib::prelude::Uuid)> {
@@ -128,13 +128,15 @@ fn replicated(rt: &tokio::runtime::Runtime, c: &RCase) -> Outcome {
                 let mut rtxn = cl.nodes[n].qs.read().await.expect("read");
                 let entries = vf_world::dump::all_entries(&mut rtxn).expect("entries");
                 if let Some((sig, detail)) = inv::memberof_classify(&entries) {
-                    // Known finding: ONE replicated change set removes edge X -> Y and adds edge Y -> X
-                    // (the union of old and new graph has a cycle, the new graph has none); the members
-                    // below keep the old transitive membership. Fingerprint: such a reversed pair exists
-                    // between the consumer's graph before and after this step.
+                    // Known finding: when ONE replicated change set changes several member lists at once
+                    // (e.g. G2 gains a member while G4 drops G2, or G4 -> G2 is replaced by G2 -> G4), the
+                    // unchanged members below keep the old transitive membership on the consumer.
+                    // Fingerprint: this replication step changed the member lists of >= 2 groups on the
+                    // consumer, and every discrepancy is a surplus (stale) value, never a missing one.
                     let reversed = pre_edges.as_ref().map(|pre| {
                         let post = group_edges(&entries);
-                        pre.iter().any(|(x, y)| !post.contains(&(*x, *y)) && post.contains(&(*y, *x)) && !pre.contains(&(*y, *x)))
+                        let changed: std::collections::BTreeSet<_> = pre.symmetric_difference(&post).map(|(g, _)| *g).collect();
+                        changed.len() >= 2 && inv::memberof_violations(&entries).iter().all(|l| l.contains("missing []"))
                     });
                     let sig = if sig == inv::SIG_MO_MISMATCH && reversed == Some(true) { SIG_EDGE_REVERSAL } else { sig };
                     log.fail(sig, format!("replica {n} after step {i} {s:?} -> {r:?}: {detail}"));
